@@ -4,13 +4,22 @@ import render as R
 NULL = '/dev/null'
 
 
+def name_str(n):
+    """An abstract name as the str it stands for: `U` stands for a non-ASCII letter (two bytes in UTF-8)."""
+    return n.replace('U', '\u00ef')
+
+
 def name_bytes(n, variant):
     if n == NULL:
         return b'/dev/null'
-    if any(ch in n for ch in ' \t"\\') or any(ord(ch) > 126 or ord(ch) < 33 for ch in n):
+    n = name_str(n)
+    if any(ch in n for ch in ' \t"\\') or any(ord(ch) < 33 or ord(ch) == 127 for ch in n):
         if variant % 2:
             return R.cquote(n).encode()
         return ('"' + n.replace('\\', '\\\\').replace('"', '\\"') + '"').encode()
+    if any(ord(ch) > 126 for ch in n):
+        # bytes above 0x7e need no quoting on input (git quotes them, GNU diff does not); the writer quotes them
+        return [n.encode(), R.cquote(n).encode(), ('"' + n + '"').encode()][variant % 3]
     return n.encode()
 
 
